@@ -577,6 +577,7 @@ class TableTask(object):
                 s.add(z3.Or([v != x for v, x in zip(free, vals)]))
                 smt.beat(60.0)
                 r = s.check()
+                smt.beat(0)
             model = dict(cex[0])
             model['counterexamples'] = cex
         else:
